@@ -6,20 +6,41 @@
 (* executed steps.  A behaviour: build a program (Extend), then run a      *)
 (* list of applications (directions) on one operator handle, the operands  *)
 (* being carried from one application to the next, the stack not.          *)
+(*                                                                         *)
+(* Program elements.  A program is a sequence of elements; an element is   *)
+(*   - an instruction of Stack.tla or a probe step (as written), or        *)
+(*   - a wrapper [a |-> "wrap", body, inv, omit, via, sty]:                *)
+(*       via = "step"  : body = <<x>>, the modifiers are written on the    *)
+(*                       step itself (`stack push=1 inv`, `omit_fwd pop..`)*)
+(*       via = "macro" : the body (one step: an alias; several: a pipeline)*)
+(*                       is registered as a macro and the modifiers are    *)
+(*                       written on the invocation (`inv s:m1`)            *)
+(*     inv: the element works with the two directions exchanged (C03, C04: *)
+(*     "an inverted invocation is the inverse of the expansion"); omit =   *)
+(*     "fwd"/"inv": passed over when the enclosing pipeline works forward/ *)
+(*     inverse; sty: where the modifiers are written (suf / pre / eq).     *)
+(* A macro means its expansion (C04): the stack instructions of a macro    *)
+(* body act on the stack of the application they are expanded into.        *)
+(* The step machine runs the PLAN of the program (the elementary steps in  *)
+(* working order, each with its effective direction); the big-step         *)
+(* reference runs the literal EXPANSION (RefInv: the two agree).           *)
 (***************************************************************************)
 EXTENDS Stack, Json
 
 CONSTANTS Alphabet,      \* set of instructions / probe steps to build programs from
           MaxLen,        \* longest program
           AppPatterns,   \* set of sequences of directions, e.g. {<<"F","I">>}
-          Data0          \* initial operand set
+          Data0,         \* initial operand set
+          MinLen         \* shortest program (1: a pipeline of one step, written `step |`)
 
 AlphaC == TLCEval(Alphabet)
 AppsC  == TLCEval(AppPatterns)
 
-VARIABLES prog, apps, ai, pc, st, data, cnt, uf, lu, phase, log
+VARIABLES prog, apps, ai, pc, st, data, cnt, uf, lu, phase, log, plan
 
-vars == <<prog, apps, ai, pc, st, data, cnt, uf, lu, phase, log>>
+vars == <<prog, apps, ai, pc, st, data, cnt, uf, lu, phase, log, plan>>
+\* plan: the elementary steps of the running application in working order (a function of prog and the
+\* direction, kept in the state only so that it is computed once per application)
 \* lu: a *legacy* pop underflowed in this application (it marks only the element it
 \* could not serve, see known finding KF-legacy-pop-underflow-masked)
 
@@ -30,7 +51,62 @@ ProbeText(ins) ==
       [] ins.a = "dbl"  -> "t_dbl e=" \o ToString(ins.e)
       [] ins.a = "noop" -> "noop"
 StepText(ins) == IF IsProbe(ins) THEN ProbeText(ins) ELSE InsText(ins)
-ProgText(p) == JoinStr([i \in 1..Len(p) |-> StepText(p[i])], " | ")
+
+\* ---- wrappers: modifiers and macros ---------------------------------------
+IsWrap(x) == x.a = "wrap"
+Opp(d) == IF d = "F" THEN "I" ELSE "F"
+
+\* The plan: an elementary step contributes itself with the direction it is handed; an element with
+\* omit_fwd (omit_inv) contributes nothing when the pipeline it is a step of works forward (inverse);
+\* `inv` exchanges the directions for that element only; a pipeline (the program, a macro body) works
+\* through its steps first to last forward, last to first inverse.
+RECURSIVE PlanOf(_, _)
+RECURSIVE PlanSeq(_, _, _)
+PlanOf(x, dir) ==
+    IF ~IsWrap(x) THEN << [ins |-> x, dir |-> dir] >>
+    ELSE IF (x.omit = "fwd" /\ dir = "F") \/ (x.omit = "inv" /\ dir = "I") THEN << >>
+    ELSE PlanSeq(x.body, IF x.inv THEN Opp(dir) ELSE dir, 1)
+PlanSeq(p, dir, k) ==
+    IF k > Len(p) THEN << >>
+    ELSE PlanOf(p[IF dir = "F" THEN k ELSE Len(p) + 1 - k], dir) \o PlanSeq(p, dir, k + 1)
+Plan(p, dir) == PlanSeq(p, dir, 1)
+
+\* `inv` written on a stack step itself.  Rumination 002: "`stack` does not support the `inv` modifier.
+\* Instead use these substitutions" (the table of inverse instructions); C03: a step carrying `inv`
+\* behaves as that step with the two directions exchanged.  Two behaviours are admissible: the step is
+\* refused at instantiation, or it is the inverse instruction of the documented table.  (Accepting the
+\* modifier and ignoring it is neither.)  On a macro invocation `inv` is the inverse of the expansion (C04).
+RECURSIVE InvOnStackStep(_)
+InvOnStackStep(p) == \E k \in 1..Len(p) : IsWrap(p[k]) /\
+                        ((p[k].via = "step" /\ p[k].inv /\ ~IsProbe(p[k].body[1])) \/ InvOnStackStep(p[k].body))
+
+\* ---- text ------------------------------------------------------------------
+ModWords(x) == (IF x.inv THEN <<"inv">> ELSE << >>)
+               \o (IF x.omit = "fwd" THEN <<"omit_fwd">> ELSE IF x.omit = "inv" THEN <<"omit_inv">> ELSE << >>)
+WithMods(t, x) ==
+    LET w == ModWords(x) IN
+    IF Len(w) = 0 THEN t
+    ELSE CASE x.sty = "pre" -> JoinStr(w, " ") \o " " \o t
+           [] x.sty = "eq"  -> t \o " " \o JoinStr([i \in 1..Len(w) |-> w[i] \o "=true"], " ")
+           [] OTHER         -> t \o " " \o JoinStr(w, " ")
+\* macros are named after their position: s:m<k> for the k-th step of the program, s:m<k>_<j> inside its body
+RECURSIVE ElemText(_, _)
+RECURSIVE SeqText(_, _, _)
+ElemText(x, nm) == IF ~IsWrap(x) THEN StepText(x)
+                   ELSE IF x.via = "macro" THEN WithMods(nm, x)
+                   ELSE WithMods(StepText(x.body[1]), x)
+SeqText(p, pre, k) == IF k > Len(p) THEN ""
+                      ELSE ElemText(p[k], pre \o ToString(k)) \o (IF k < Len(p) THEN " | " ELSE "") \o SeqText(p, pre, k + 1)
+\* a pipeline of one step is written with a trailing bar
+ProgText(p) == SeqText(p, "s:m", 1) \o (IF Len(p) = 1 THEN " |" ELSE "")
+\* the macros a program needs: sequence of [name, def]
+RECURSIVE ElemRes(_, _)
+RECURSIVE SeqRes(_, _, _)
+ElemRes(x, nm) == IF ~IsWrap(x) THEN << >>
+                  ELSE (IF x.via = "macro" THEN << [name |-> nm, def |-> SeqText(x.body, nm \o "_", 1)] >> ELSE << >>)
+                       \o SeqRes(x.body, nm \o "_", 1)
+SeqRes(p, pre, k) == IF k > Len(p) THEN << >> ELSE ElemRes(p[k], pre \o ToString(k)) \o SeqRes(p, pre, k + 1)
+Resources(p) == SeqRes(p, "s:m", 1)
 
 ProbeApply(ins, dir, d) ==
     CASE ins.a = "noop" -> d
@@ -40,39 +116,46 @@ ProbeApply(ins, dir, d) ==
                               IF dir = "F" THEN Dbl(d[k][ins.e]) ELSE Half(d[k][ins.e])])
 
 Dir == apps[ai]
-\* In the inverse direction the program runs backwards
-Cur == IF Dir = "F" THEN prog[pc] ELSE prog[Len(prog) + 1 - pc]
+\* the elementary step at hand and the direction it works in (in the inverse direction the program
+\* runs backwards: see Plan)
+Cur  == plan[pc].ins
+CDir == plan[pc].dir
 
 Init == /\ prog = <<>> /\ apps = <<>> /\ ai = 0 /\ pc = 0 /\ st = <<>>
-        /\ data = Data0 /\ cnt = -1 /\ uf = FALSE /\ lu = FALSE /\ phase = "build" /\ log = <<>>
+        /\ data = Data0 /\ cnt = -1 /\ uf = FALSE /\ lu = FALSE /\ phase = "build" /\ log = <<>> /\ plan = <<>>
 
 Extend == /\ phase = "build" /\ Len(prog) < MaxLen
           /\ \E ins \in AlphaC : prog' = Append(prog, ins)
-          /\ UNCHANGED <<apps, ai, pc, st, data, cnt, uf, lu, phase, log>>
+          /\ UNCHANGED <<apps, ai, pc, st, data, cnt, uf, lu, phase, log, plan>>
 
-Start == /\ phase = "build" /\ Len(prog) >= 2
-         /\ \E a \in AppsC : apps' = a
+Start == /\ phase = "build" /\ Len(prog) >= MinLen
+         /\ \E a \in AppsC : apps' = a /\ plan' = Plan(prog, a[1])
          /\ ai' = 1 /\ pc' = 1 /\ st' = <<>> /\ cnt' = -1 /\ phase' = "run"
          /\ UNCHANGED <<prog, data, uf, lu, log>>
 
-EffKind == IF IsProbe(Cur) THEN "probe" ELSE IF Dir = "F" THEN Cur.a ELSE InverseIns(Cur).a
+\* Instantiation may refuse a program with `inv` written on a stack step (see InvOnStackStep)
+Refuse == /\ phase = "build" /\ Len(prog) >= MinLen /\ InvOnStackStep(prog)
+          /\ phase' = "refused"
+          /\ UNCHANGED <<prog, apps, ai, pc, st, data, cnt, uf, lu, log, plan>>
+
+EffKind == IF IsProbe(Cur) THEN "probe" ELSE IF CDir = "F" THEN Cur.a ELSE InverseIns(Cur).a
 Account(r) == /\ st' = r.st /\ data' = r.data
               /\ lu' = (lu \/ (r.uf /\ EffKind = "lpop"))
               /\ cnt' = IF cnt = -1 THEN r.cnt ELSE Min(cnt, r.cnt)
               /\ uf' = (uf \/ r.uf)
               /\ pc' = pc + 1
-              /\ UNCHANGED <<prog, apps, ai, phase, log>>
+              /\ UNCHANGED <<prog, apps, ai, phase, log, plan>>
 
-Running == phase = "run" /\ pc <= Len(prog)
+Running == phase = "run" /\ pc <= Len(plan)
 Unspecified == ~IsProbe(Cur) /\ (Cur.a = "drop" \/ (Cur.a = "swap" /\ ~SwapDefined(st)))
 
 StepProbe == /\ Running /\ IsProbe(Cur)
-             /\ Account(Res(st, ProbeApply(Cur, Dir, data), Len(data), FALSE))
+             /\ Account(Res(st, ProbeApply(Cur, CDir, data), Len(data), FALSE))
 
 StepStack(kind) ==
     /\ Running /\ ~IsProbe(Cur) /\ Cur.a = kind
     /\ ~Unspecified
-    /\ Account(IF Dir = "F" THEN StackFwd(Cur, st, data) ELSE StackInv(Cur, st, data))
+    /\ Account(IF CDir = "F" THEN StackFwd(Cur, st, data) ELSE StackInv(Cur, st, data))
 
 \* An instruction whose behaviour the documentation leaves open: swap with fewer than two
 \* elements on the stack, and the undocumented `drop`.  The application is not predicted any
@@ -81,7 +164,7 @@ StepStack(kind) ==
 StepUnspec == /\ Running /\ Unspecified
               /\ log' = Append(log, [dir |-> Dir, cnt |-> -2, data |-> data, uf |-> TRUE, lu |-> FALSE, depth |-> Len(st), unspec |-> TRUE])
               /\ phase' = "done"
-              /\ UNCHANGED <<prog, apps, ai, pc, st, data, cnt, uf, lu>>
+              /\ UNCHANGED <<prog, apps, ai, pc, st, data, cnt, uf, lu, plan>>
 
 StepPush   == StepStack("push")
 StepPop    == StepStack("pop")
@@ -94,16 +177,18 @@ StepLPop   == StepStack("lpop")
 
 \* End of one application: report, then either start the next one (with an
 \* empty stack: nothing leaks from one application into the next) or stop.
+\* (the count is the minimum over the executed steps, the set size if none was executed)
 EndApply ==
-    /\ phase = "run" /\ pc > Len(prog)
-    /\ log' = Append(log, [dir |-> Dir, cnt |-> cnt, data |-> data, uf |-> uf, lu |-> lu, depth |-> Len(st), unspec |-> FALSE])
+    /\ phase = "run" /\ pc > Len(plan)
+    /\ log' = Append(log, [dir |-> Dir, cnt |-> IF cnt = -1 THEN Len(data) ELSE cnt, data |-> data, uf |-> uf, lu |-> lu, depth |-> Len(st), unspec |-> FALSE])
     /\ IF ai < Len(apps) /\ ~uf     \* after an underflow the operands are only known to carry NaN: stop
        THEN /\ ai' = ai + 1 /\ pc' = 1 /\ st' = <<>> /\ cnt' = -1
+            /\ plan' = Plan(prog, apps[ai + 1])
             /\ UNCHANGED <<prog, apps, data, phase, uf, lu>>
        ELSE /\ phase' = "done"
-            /\ UNCHANGED <<prog, apps, ai, pc, st, data, cnt, uf, lu>>
+            /\ UNCHANGED <<prog, apps, ai, pc, st, data, cnt, uf, lu, plan>>
 
-Next == Extend \/ Start \/ StepUnspec \/ StepProbe \/ StepPush \/ StepPop \/ StepFlip \/ StepRoll
+Next == Extend \/ Start \/ Refuse \/ StepUnspec \/ StepProbe \/ StepPush \/ StepPop \/ StepFlip \/ StepRoll
         \/ StepUnroll \/ StepSwap \/ StepLPush \/ StepLPop \/ EndApply
 
 Spec == Init /\ [][Next]_vars
@@ -117,7 +202,7 @@ Delta(ins) == CASE IsProbe(ins) -> 0
                 [] ins.a = "lpush" -> Cardinality(ins.flags) [] ins.a = "lpop" -> -Cardinality(ins.flags)
                 [] OTHER -> 0
 
-TypeOK == /\ phase \in {"build", "run", "done"}
+TypeOK == /\ phase \in {"build", "run", "done", "refused"}
           /\ cnt \in -1..Len(Data0)
           /\ Len(data) = Len(Data0)
 
@@ -129,23 +214,46 @@ CountInv == (phase = "run" /\ cnt # -1) => /\ cnt \in {0, Len(Data0)}
 \* (checked on the log: an application that underflowed reports 0)
 UnderflowInv == \A i \in 1..Len(log) : (log[i].uf /\ ~log[i].unspec) => log[i].cnt = 0
 
-\* Big-step reference: the inverse of a program is the reversed program with
-\* every instruction replaced by its inverse instruction (push <-> pop with
-\* reversed argument lists, roll <-> unroll, swap and flip unchanged, probes
-\* inverted), run forward on an empty stack.
-InvProg(p) == [i \in 1..Len(p) |-> LET x == p[Len(p) + 1 - i] IN
-                  IF IsProbe(x) THEN [x EXCEPT !.a = x.a] ELSE InverseIns(x)]
+\* Big-step reference, by the literal expansion.  A program expands to a flat sequence of steps
+\* [ins, inv, omit]: an element that is not a wrapper is itself; a wrapper expands to the expansion of
+\* its body - inverted (steps in reverse order, each step's inv toggled, its omissions exchanged) if the
+\* wrapper carries inv - and its own omission then applies to every step of that.
+\* The flat program works forward through the steps not omitted forward, first to last; inverse through
+\* those not omitted inverse, last to first.  A step that so works in the inverse direction is the inverse
+\* instruction (push <-> pop with reversed argument lists, roll <-> unroll, swap and flip unchanged,
+\* probes inverted) run forward; all on a stack that is empty at the start.
+OtherOmit(o) == IF o = "fwd" THEN "inv" ELSE "fwd"
+InvFlat(f) == [i \in 1..Len(f) |-> LET s == f[Len(f) + 1 - i]
+                                   IN [s EXCEPT !.inv = ~@, !.omit = {OtherOmit(o) : o \in @}]]
+RECURSIVE FlatOf(_)
+RECURSIVE FlatSeq(_, _)
+FlatOf(x) == IF ~IsWrap(x) THEN << [ins |-> x, inv |-> FALSE, omit |-> {}] >>
+             ELSE LET b == FlatSeq(x.body, 1)
+                      e == IF x.inv THEN InvFlat(b) ELSE b
+                  IN [i \in 1..Len(e) |-> [e[i] EXCEPT !.omit = @ \cup (IF x.omit = "" THEN {} ELSE {x.omit})]]
+FlatSeq(p, k) == IF k > Len(p) THEN << >> ELSE FlatOf(p[k]) \o FlatSeq(p, k + 1)
+Expansion(p) == FlatSeq(p, 1)
 
-RECURSIVE BigRun(_, _, _, _, _, _)
-BigRun(p, pdir, i, s, d, c) ==
-    IF i > Len(p) THEN [data |-> d, cnt |-> c, depth |-> Len(s)]
+\* the instructions a flat program runs (forward, on an empty stack) when applied in direction dir;
+\* pd: the direction a probe step works in
+Worked(f, dir) ==
+    LET g    == IF dir = "F" THEN f ELSE Rev(f)
+        tag  == IF dir = "F" THEN "fwd" ELSE "inv"
+        keep == SelectSeq(g, LAMBDA s : tag \notin s.omit)
+    IN [i \in 1..Len(keep) |->
+          LET s   == keep[i]
+              eff == IF s.inv THEN Opp(dir) ELSE dir
+          IN [ins |-> IF IsProbe(s.ins) \/ eff = "F" THEN s.ins ELSE InverseIns(s.ins), pd |-> eff]]
+
+RECURSIVE BigRun(_, _, _, _, _)
+BigRun(p, i, s, d, c) ==
+    IF i > Len(p) THEN [data |-> d, cnt |-> IF c = -1 THEN Len(d) ELSE c, depth |-> Len(s)]
     ELSE LET x == p[i]
-             r == IF IsProbe(x) THEN Res(s, ProbeApply(x, pdir, d), Len(d), FALSE)
-                  ELSE StackFwd(x, s, d)
-         IN BigRun(p, pdir, i + 1, r.st, r.data, IF c = -1 THEN r.cnt ELSE Min(c, r.cnt))
+             r == IF IsProbe(x.ins) THEN Res(s, ProbeApply(x.ins, x.pd, d), Len(d), FALSE)
+                  ELSE StackFwd(x.ins, s, d)
+         IN BigRun(p, i + 1, r.st, r.data, IF c = -1 THEN r.cnt ELSE Min(c, r.cnt))
 
-Reference(p, dir, d) == IF dir = "F" THEN BigRun(p, "F", 1, <<>>, d, -1)
-                        ELSE BigRun(InvProg(p), "I", 1, <<>>, d, -1)
+Reference(p, dir, d) == BigRun(Worked(Expansion(p), dir), 1, <<>>, d, -1)
 
 \* The step machine agrees with the big-step reference after every application
 InputOf(i) == IF i = 1 THEN Data0 ELSE log[i - 1].data
@@ -161,6 +269,9 @@ Vals(d) == d
 Emit == phase = "done" =>
     PrintT(<<"REPLAY", ToJson([
         def   |-> ProgText(prog),
+        res   |-> Resources(prog),
+        \* `inv` written on a stack step: refused at instantiation, or the inverse instruction
+        may_refuse |-> InvOnStackStep(prog),
         data  |-> Data0,
         apps  |-> [i \in 1..Len(log) |->
                      [dir |-> log[i].dir, count |-> log[i].cnt,
